@@ -87,8 +87,9 @@ VALUE_OPS = {
 OTHER_OPS = [
     "unknown_target", "target_wrong_case", "grid_all_three", "grid_step_alone", "grid_negative_nr", "grid_zero_cutoff",
     "grid_nr_not_integer", "grid_dr_not_number", "grid_not_finite", "grid_three_with_zero", "dlpoly_nr_not_multiple_of_4",
-    "pair_key_no_dash", "pair_key_three_species", "missing_pair_section",
-    "fs_key_without_arrow", "fs_key_two_arrows", "missing_embed_section", "missing_density_section",
+    "pair_key_no_dash", "pair_key_three_species", "pair_key_empty_species", "missing_pair_section",
+    "fs_key_without_arrow", "fs_key_two_arrows", "fs_key_empty_species", "species_key_empty_label",
+    "formula_signature_trailing_text", "number_with_underscore", "placeholder_unresolvable_in_unread_entry", "missing_embed_section", "missing_density_section",
     "species_without_data", "species_data_removed", "species_key_without_dot", "species_mass_not_number", "species_number_not_integer",
     "custom_wrong_arity", "table_form_with_params", "formula_bad_signature", "formula_signature_no_paren",
     "formula_unparsable", "formula_undefined_symbol", "formula_unknown_function", "formula_calls_wrong_arity",
@@ -111,10 +112,10 @@ POTDEF_SECTIONS = ("Pair", "EAM-Embed", "EAM-Density", "EAM-ADP-Dipole", "EAM-AD
 @st.composite
 def _case(draw, op, light=False):
     targets = None
-    if op in ("fs_key_without_arrow", "fs_key_two_arrows"):
+    if op in ("fs_key_without_arrow", "fs_key_two_arrows", "fs_key_empty_species"):
         targets = ["setfl_fs", "DL_POLY_EAM_fs", "excel_eam_fs"]
     elif op in ("missing_embed_section", "missing_density_section", "species_without_data", "species_mass_not_number",
-                "species_number_not_integer", "species_key_without_dot", "species_data_removed"):
+                "species_number_not_integer", "species_key_without_dot", "species_data_removed", "species_key_empty_label"):
         targets = sorted(gen.EAM_TARGETS)
     elif op == "dlpoly_nr_not_multiple_of_4":
         targets = ["DLPOLY", "DL_POLY"]
@@ -259,15 +260,58 @@ def mutate(case):
         deltab("cutoff"), settab("dr", "fine")
     elif op == "dlpoly_nr_not_multiple_of_4":
         settab("nr", str(4 * (2 + site % 5) + 1 + site % 3))
-    elif op in ("pair_key_no_dash", "pair_key_three_species"):
+    elif op in ("pair_key_no_dash", "pair_key_three_species", "pair_key_empty_species"):
         p = _sec(secs, "Pair")
         if not p or not p[1]:
             return None
         e = p[1][site % len(p[1])]
         a, b = e[0].split("-")
-        e[0] = (a + b) if op == "pair_key_no_dash" else "%s-%s-%s" % (a, b, a)
+        if op == "pair_key_empty_species":
+            e[0] = [a + "-", "-" + b, a + " - "][(site // 7) % 3]
+        else:
+            e[0] = (a + b) if op == "pair_key_no_dash" else "%s-%s-%s" % (a, b, a)
     elif op == "missing_pair_section":
         secs[:] = [s for s in secs if s[0] != "Pair"]
+    elif op == "fs_key_empty_species":
+        d = _sec(secs, "EAM-Density")
+        e = d[1][site % len(d[1])]
+        a, b = e[0].split("->")
+        e[0] = [a + "->", "->" + b][(site // 7) % 2]
+    elif op == "species_key_empty_label":
+        sp = _sec(secs, "Species")
+        if sp is None:
+            sp = ["Species", []]
+            secs.append(sp)
+        sp[1].append([[".atomic_mass", m["elements"][0] + ".", ". atomic_mass"][site % 3], "12.0"])
+    elif op == "number_with_underscore":
+        # digit-group underscores are Python source syntax (int('1_0') == 10), not numbers of the input format
+        how = site % 4
+        sp = _sec(secs, "Species")
+        if how == 2 and sp and any(k.endswith(("atomic_mass", "lattice_constant")) for k, _ in sp[1]) and m["kind"] != "pair":
+            e = [e for e in sp[1] if e[0].endswith(("atomic_mass", "lattice_constant"))][0]
+            e[1] = "1_0.5"
+        elif how == 3:
+            t = _ensure_table(secs, site)
+            t[1][1][1] = "1.0 0.5 1_0 0.1 0.0"
+        elif how == 1:
+            deltab("dr"), settab("cutoff", "1_0.0")
+        else:
+            deltab("dr"), settab("nr", "1_2")
+    elif op == "placeholder_unresolvable_in_unread_entry":
+        # the place-holder sits in an entry the tabulation never reads: a variable nothing refers to, or species
+        # data of a pair model
+        if site % 2 or m["kind"] != "pair":
+            v = _sec(secs, "Variables")
+            if v is None:
+                v = ["Variables", []]
+                secs.insert(0, v)
+            v[1].append(["unusedv", "${nosuchvariable}"])
+        else:
+            sp = _sec(secs, "Species")
+            if sp is None:
+                sp = ["Species", []]
+                secs.append(sp)
+            sp[1].append(["Zq.atomic_mass", "${nosuchvariable}"])
     elif op in ("fs_key_without_arrow", "fs_key_two_arrows"):
         d = _sec(secs, "EAM-Density")
         e = d[1][site % len(d[1])]
@@ -325,6 +369,8 @@ def mutate(case):
             # the reference in [Pair] then names an unknown form as well: still one malformation of the file
         elif op == "formula_signature_no_paren":
             pf[1][i][0] = "mutf r a"
+        elif op == "formula_signature_trailing_text":
+            pf[1][i][0] = ["mutf(r, a) junk", "mutf(r, a)x", "mutf(r, a) (b)"][site % 3]
         elif op == "formula_unparsable":
             pf[1][i][1] = "a * exp(-r) +* 1.0"
         elif op == "formula_undefined_symbol":
